@@ -772,6 +772,42 @@ func c17Structure(c *Ctx, r *Report) {
 			okAfter = false
 		}
 		rep("R17.6", okAfter, fnID(h), "the in-flight flag is cleared only after the reply (if any) has been written", "", "flag-cleared-before-write", c.pos(setF.Pos()))
+		// the flag does not stay raised while the connection waits for more bytes: every path from
+		// the raising store back to the transport Read passes the clearing store (a connection
+		// that looks busy forever blocks Shutdown)
+		var readCall ssa.Instruction
+		for _, b := range h.Blocks {
+			for _, in := range b.Instrs {
+				if call, ok := in.(*ssa.Call); ok && call.Common().IsInvoke() && call.Common().Method.Name() == "Read" && len(call.Common().Args) == 1 {
+					readCall = in
+				}
+			}
+		}
+		if readCall != nil {
+			// search from the raising store's block without entering the clearing store's block
+			leak := false
+			if setT.Block() != setF.Block() {
+				seen := map[*ssa.BasicBlock]bool{setT.Block(): true}
+				work := []*ssa.BasicBlock{setT.Block()}
+				for len(work) > 0 {
+					b := work[len(work)-1]
+					work = work[:len(work)-1]
+					for _, sc := range b.Succs {
+						if sc == setF.Block() || seen[sc] {
+							continue
+						}
+						if sc == readCall.Block() {
+							leak = true
+						}
+						seen[sc] = true
+						work = append(work, sc)
+					}
+				}
+			} else if !before(setT, setF) {
+				leak = true
+			}
+			rep("R17.6", !leak, fnID(h), "every path from raising the in-flight flag back to the next Read clears it again (a connection waiting for more bytes does not look busy to Shutdown)", "", "flag-left-raised", c.pos(setT.Pos()))
+		}
 	}
 }
 
